@@ -384,22 +384,7 @@ func c08UnstableKeys(p *Prog) *RuleResult {
 	r := NewRule("C08/R3 unstable-key", "sort comparators and hash inputs never use source indices (assigned in goroutine completion order); only StableSourceIndices may order")
 	// (a) comparators
 	for _, fn := range p.ModuleFuncs() {
-		isCmp := fn.Name() == "Less" && fn.Signature.Recv() != nil
-		if !isCmp && fn.Parent() != nil {
-			eachInstr(fn.Parent(), func(b *ssa.BasicBlock, in ssa.Instruction) {
-				if c, ok := in.(ssa.CallInstruction); ok {
-					n := calleeFullName(c)
-					if strings.HasPrefix(n, "sort.Slice") || strings.HasPrefix(n, "slices.Sort") {
-						for _, a := range c.Common().Args {
-							if mc, ok := a.(*ssa.MakeClosure); ok && mc.Fn == fn {
-								isCmp = true
-							}
-						}
-					}
-				}
-			})
-		}
-		if !isCmp {
+		if !c08IsComparator(fn) {
 			continue
 		}
 		r.Instances++
@@ -428,6 +413,81 @@ func c08UnstableKeys(p *Prog) *RuleResult {
 				r.Fail(key, p.Pos(pos), "sort comparator orders by the unstable source index field "+f)
 			}
 		}
+	}
+	// (c) sort-key fields: an integer field that a comparator reads from the elements it orders is a
+	// sort key; whatever is stored into that field anywhere in the module is ordered by. A raw source
+	// index stored there (instead of StableSourceIndices[sourceIndex]) orders by discovery order.
+	keyFields := map[string]string{} // "owner.field" -> comparator
+	for _, fn := range p.ModuleFuncs() {
+		if !c08IsComparator(fn) {
+			continue
+		}
+		for _, f := range withClosures(fn) {
+			eachInstr(f, func(b *ssa.BasicBlock, in ssa.Instruction) {
+				var owner, name string
+				var t types.Type
+				switch x := in.(type) {
+				case *ssa.FieldAddr:
+					owner, name, t = namedTypeName(x.X.Type()), fieldAddrName(x), x.Type()
+					if pt, ok := t.Underlying().(*types.Pointer); ok {
+						t = pt.Elem()
+					}
+				case *ssa.Field:
+					owner, name, t = namedTypeName(x.X.Type()), fieldValName(x), x.Type()
+				default:
+					return
+				}
+				if bt, ok := t.Underlying().(*types.Basic); !ok || bt.Info()&types.IsInteger == 0 {
+					return
+				}
+				if owner == "" || strings.HasPrefix(owner, "ast.") || strings.HasPrefix(owner, "js_ast.") || strings.HasPrefix(owner, "css_ast.") || strings.HasPrefix(owner, "logger.") {
+					return // fields of shared node types are not per-sort keys (their unstable members are handled in (a))
+				}
+				keyFields[owner+"."+name] = FuncName(fn)
+			})
+		}
+	}
+	for _, fn := range p.ModuleFuncs() {
+		eachInstr(fn, func(b *ssa.BasicBlock, in ssa.Instruction) {
+			st, ok := in.(*ssa.Store)
+			if !ok {
+				return
+			}
+			fa, ok := st.Addr.(*ssa.FieldAddr)
+			if !ok {
+				return
+			}
+			kf := namedTypeName(fa.X.Type()) + "." + fieldAddrName(fa)
+			cmp, isKey := keyFields[kf]
+			if !isKey {
+				return
+			}
+			r.Instances++
+			found := ""
+			backSlice(st.Val, func(v ssa.Value) bool {
+				switch x := v.(type) {
+				case *ssa.FieldAddr:
+					if o, n := namedTypeName(x.X.Type()), fieldAddrName(x); unstableIndexField(o, n) {
+						found = o + "." + n
+					}
+				case *ssa.Field:
+					if o, n := namedTypeName(x.X.Type()), fieldValName(x); unstableIndexField(o, n) {
+						found = o + "." + n
+					}
+				case *ssa.IndexAddr, *ssa.Lookup, *ssa.Index:
+					return false // indexing by a source index selects data (e.g. StableSourceIndices[i]); the index itself is not the key
+				case *ssa.Call:
+					return false
+				}
+				return true
+			})
+			key := FuncName(fn) + " stores sort key " + kf
+			if found == "" {
+				r.OK(key, true, "the value ordered by "+cmp+" does not derive from a raw source index")
+			} else if !r.CheckExc(c08UnstableExceptions, key) {
+				r.Fail(key, p.Pos(st.Pos()), "the field "+kf+" is a sort key of "+cmp+", and the value stored here is the unstable source index "+found+" (assigned in discovery order; only StableSourceIndices[...] may order)")
+			}
+		})
 	}
 	// (b) hash inputs in the linker
 	for _, s := range []string{"linker.hashWriteUint32", "linker.hashWriteLengthPrefixed"} {
@@ -480,6 +540,25 @@ func c08UnstableKeys(p *Prog) *RuleResult {
 	r.Floor(20)
 	r.StaleCheck(c08UnstableExceptions)
 	return r
+}
+
+func c08IsComparator(fn *ssa.Function) bool {
+	isCmp := fn.Name() == "Less" && fn.Signature.Recv() != nil
+	if !isCmp && fn.Parent() != nil {
+		eachInstr(fn.Parent(), func(b *ssa.BasicBlock, in ssa.Instruction) {
+			if c, ok := in.(ssa.CallInstruction); ok {
+				n := calleeFullName(c)
+				if strings.HasPrefix(n, "sort.Slice") || strings.HasPrefix(n, "slices.Sort") {
+					for _, a := range c.Common().Args {
+						if mc, ok := a.(*ssa.MakeClosure); ok && mc.Fn == fn {
+							isCmp = true
+						}
+					}
+				}
+			}
+		})
+	}
+	return isCmp
 }
 
 func isAmbient(n string) bool {
